@@ -558,8 +558,11 @@ class HMove(common.Suite):
         drawn = []
 
         def dist(c):
-            q["mb"](c, forced=case["forced"])
+            # what `functools.partial(maxwell_boltzmann_distribution, forced=…)` or a lambda does: the callable's own
+            # return value reaches the move
+            r = q["mb"](c, forced=case["forced"])
             drawn.append(c.atoms.get_momenta())
+            return r
 
         mv = q["Move"](distribution=dist, operation=q["Verlet"](dt=case["dt_fs"], max_steps=case["steps"],
                                                                  apply_constraints=case["apply"]))
@@ -679,8 +682,9 @@ class HMCDriver(common.Suite):
         drawn = []
 
         def dist(c):
-            q["mb"](c)
+            r = q["mb"](c)
             drawn.append(ke_of(c.atoms.get_momenta(), masses))
+            return r
 
         mv = q["Move"](distribution=dist, operation=q["Verlet"](dt=case["dt_fs"], max_steps=case["steps"]))
         mv.max_attempts = case["max_attempts"]
